@@ -96,6 +96,8 @@ def _workload(rng, runner):
         if margs:
             argv += ["--macros"] + margs
         op = {"op": "cli", "argv": argv}
+    info["lib_equiv"] = {"op": "match", "rule": RULE, "input": inp, "type": "binary" if binary else "assembly", "ret": "bool",
+                         "search": search, "only_addr": only_addr, "macros": margs or None}
     info.update({"entry": entry, "type": "binary" if binary else "assembly", "ret": ret if entry == "lib" else "cli", "search": search,
                  "rule_file": RULE, "input_file": inp})
     return files, op, doc, mfiles, info
@@ -274,8 +276,8 @@ def run_one(index, seed, runner, tier, opts):
         for f in picks:
             fop = copy.deepcopy(op)
             fop["faults"] = [f]
-            pre = copy.deepcopy(op)
-            pre.pop("faults", None)
+            # the predecessor is always a library operation: one process = at most one CLI invocation
+            pre = copy.deepcopy(info["lib_equiv"])
             ops = [{"op": "write", "path": RULE, "content": gen.dump_yaml(nf_doc)}, pre,
                    {"op": "write", "path": RULE, "content": files[RULE]}, fop]
             runner.reset(files)
